@@ -94,7 +94,8 @@ def run(chk):
     cases = L.generate(chk)
     base = [c for c in cases if not c["rev"] and c["endlib"]]
     if not thorough:
-        base = base[::3]
+        # every short text (header statements, units, single statements) and every third of the longer ones
+        base = [c for c in base if len(c["toks"]) <= 40] + [c for c in base if len(c["toks"]) > 40][::3]
     pc = [{"id": c["id"], "toks": c["toks"], "sep": s} for c in base for s in ((0, 4) if not thorough else (0, 1, 3, 4))]
     npre = 0
     for q in vlib.harness("lef_prefixes", pc, W, timeout_ms=60000):
